@@ -5,7 +5,7 @@ SPEC = {
     'variants': ['', 't32'],
     'lean_modules': ['N2k.Props.C11'], 'props_files': ['N2k/Props/C11.lean'],
     'translators': ['pgn_tables'],
-    'case_start': ['reset', 'reset0'],
+    'case_start': ['reset', 'reset0', 'tpseq'],
     'trusted_base': ["model N2k/Model/Send.lean transcribes SendFrames/SendFrame/GetNextFreeCANSendFrame and the fast-packet "
                      "loop of SendMsg by hand; the CAN driver is an arbitrary accept/refuse oracle",
                      "harness oracle counts produced frames from the protected queue indices (CANSendFrameBufferRead/Write)"],
